@@ -122,6 +122,335 @@ func c16CallLits(fd *ast.FuncDecl, method string) ([]string, bool) {
 	return out, true
 }
 
+
+// ---- statement-by-statement translation of `isNumeric` (and of any function of the same shape: a string
+// parameter scanned by `for ; i < len(s); i++` loops with early returns)
+//
+// Values are Lean `Int`s (bytes through `byteAt s k`, total).  A loop body becomes a function `Int → Flow`
+// (`ret b` = return, `brk i` = break / loop exit with index i, `next i` = fall through to the post statement);
+// `runLoop` (fixed prelude) iterates it.  Anything outside the expected subset makes the whole definition
+// `untranslatable`, which breaks `isNumeric_matches_source` in Props/C16.lean.
+
+type c16tr struct {
+	c     *Ctx
+	param string // the string parameter
+	ok    bool
+	why   string
+}
+
+func (t *c16tr) fail(why string) string {
+	if t.ok {
+		t.ok = false
+		t.why = why
+	}
+	return "default"
+}
+
+// integer-valued expression
+func (t *c16tr) intExpr(e ast.Expr) string {
+	switch v := e.(type) {
+	case *ast.ParenExpr:
+		return t.intExpr(v.X)
+	case *ast.BasicLit:
+		if n, ok := IntLit(v); ok {
+			return fmt.Sprintf("(%d : Int)", n)
+		}
+	case *ast.Ident:
+		if v.Name == "i" || v.Name == "r" {
+			return v.Name
+		}
+	case *ast.CallExpr:
+		if id, ok := v.Fun.(*ast.Ident); ok && id.Name == "len" && len(v.Args) == 1 {
+			if a, ok := v.Args[0].(*ast.Ident); ok && a.Name == t.param {
+				return "len"
+			}
+		}
+	case *ast.IndexExpr:
+		if a, ok := v.X.(*ast.Ident); ok && a.Name == t.param {
+			return "(byteAt " + t.param + " " + t.intExpr(v.Index) + ")"
+		}
+	case *ast.BinaryExpr:
+		if v.Op == token.ADD {
+			return "(" + t.intExpr(v.X) + " + " + t.intExpr(v.Y) + ")"
+		}
+		if v.Op == token.SUB {
+			return "(" + t.intExpr(v.X) + " - " + t.intExpr(v.Y) + ")"
+		}
+	}
+	return t.fail("integer expression " + t.c.Print(e))
+}
+
+func (t *c16tr) boolExpr(e ast.Expr) string {
+	switch v := e.(type) {
+	case *ast.ParenExpr:
+		return t.boolExpr(v.X)
+	case *ast.Ident:
+		if v.Name == "true" || v.Name == "false" {
+			return v.Name
+		}
+	case *ast.UnaryExpr:
+		if v.Op == token.NOT {
+			return "(!" + t.boolExpr(v.X) + ")"
+		}
+	case *ast.BinaryExpr:
+		switch v.Op {
+		case token.LAND:
+			return "(" + t.boolExpr(v.X) + " && " + t.boolExpr(v.Y) + ")"
+		case token.LOR:
+			return "(" + t.boolExpr(v.X) + " || " + t.boolExpr(v.Y) + ")"
+		case token.EQL:
+			return "(decide (" + t.intExpr(v.X) + " = " + t.intExpr(v.Y) + "))"
+		case token.NEQ:
+			return "(decide (" + t.intExpr(v.X) + " ≠ " + t.intExpr(v.Y) + "))"
+		case token.LSS:
+			return "(decide (" + t.intExpr(v.X) + " < " + t.intExpr(v.Y) + "))"
+		case token.GTR:
+			return "(decide (" + t.intExpr(v.X) + " > " + t.intExpr(v.Y) + "))"
+		case token.LEQ:
+			return "(decide (" + t.intExpr(v.X) + " ≤ " + t.intExpr(v.Y) + "))"
+		case token.GEQ:
+			return "(decide (" + t.intExpr(v.X) + " ≥ " + t.intExpr(v.Y) + "))"
+		}
+	}
+	return t.fail("condition " + t.c.Print(e))
+}
+
+// statements inside a loop body, followed by the continuation `rest` (the statements after an `if` without else)
+func (t *c16tr) flow(stmts []ast.Stmt) string {
+	if len(stmts) == 0 {
+		return ".next i"
+	}
+	rest := stmts[1:]
+	switch v := stmts[0].(type) {
+	case *ast.AssignStmt:
+		if v.Tok == token.DEFINE && len(v.Lhs) == 1 && len(v.Rhs) == 1 {
+			if id, ok := v.Lhs[0].(*ast.Ident); ok && id.Name == "r" {
+				return "let r : Int := " + t.intExpr(v.Rhs[0]) + "; " + t.flow(rest)
+			}
+		}
+	case *ast.IncDecStmt:
+		if id, ok := v.X.(*ast.Ident); ok && id.Name == "i" && v.Tok == token.INC {
+			return "let i : Int := i + 1; " + t.flow(rest)
+		}
+	case *ast.ReturnStmt:
+		if len(v.Results) == 1 {
+			return ".ret " + t.boolExpr(v.Results[0])
+		}
+	case *ast.BranchStmt:
+		if v.Tok == token.BREAK && v.Label == nil {
+			return ".brk i"
+		}
+	case *ast.IfStmt:
+		if v.Init == nil && v.Else == nil {
+			body := append(append([]ast.Stmt{}, v.Body.List...), rest...)
+			return "(if " + t.boolExpr(v.Cond) + " then (" + t.flow(body) + ") else (" + t.flow(rest) + "))"
+		}
+	}
+	return t.fail("loop statement " + t.c.Print(stmts[0]))
+}
+
+// top-level statements of the function
+func (t *c16tr) top(stmts []ast.Stmt) string {
+	if len(stmts) == 0 {
+		return t.fail("function falls off its end")
+	}
+	rest := stmts[1:]
+	switch v := stmts[0].(type) {
+	case *ast.IfStmt:
+		if v.Init == nil && v.Else == nil && len(v.Body.List) == 1 {
+			if r, ok := v.Body.List[0].(*ast.ReturnStmt); ok && len(r.Results) == 1 {
+				return "if " + t.boolExpr(v.Cond) + " then " + t.boolExpr(r.Results[0]) + " else\n  " + t.top(rest)
+			}
+		}
+	case *ast.AssignStmt:
+		if v.Tok == token.DEFINE && len(v.Lhs) == 1 && len(v.Rhs) == 1 {
+			if id, ok := v.Lhs[0].(*ast.Ident); ok && id.Name == "i" {
+				return "let i : Int := " + t.intExpr(v.Rhs[0]) + "\n  " + t.top(rest)
+			}
+		}
+	case *ast.ForStmt:
+		// exactly `for ; i < len(s); i++`
+		okShape := v.Init == nil && v.Cond != nil && v.Post != nil
+		if okShape {
+			okShape = strings.Join(strings.Fields(t.c.Print(v.Cond)), "") == "i<len("+t.param+")" &&
+				strings.Join(strings.Fields(t.c.Print(v.Post)), "") == "i++"
+		}
+		if okShape {
+			return "(runLoop len (fun i => " + t.flow(v.Body.List) + ") " + t.param + ".length i).cont fun i =>\n  " + t.top(rest)
+		}
+	case *ast.ReturnStmt:
+		if len(v.Results) == 1 && len(rest) == 0 {
+			return t.boolExpr(v.Results[0])
+		}
+	}
+	return t.fail("statement " + t.c.Print(stmts[0]))
+}
+
+const c16Prelude = `/-- ` + "`s[k]`" + ` as an ` + "`Int`" + ` (total; the source only evaluates it under a bounds guard) -/
+def byteAt (s : List UInt8) (k : Int) : Int := ((s.getD k.toNat 0).toNat : Int)
+
+/-- outcome of one loop body: ` + "`return b`" + `, ` + "`break`" + ` with index ` + "`i`" + `, or fall through to the post statement -/
+inductive Flow where
+  | ret (b : Bool)
+  | brk (i : Int)
+  | next (i : Int)
+
+/-- what follows a loop: a ` + "`return`" + ` inside it ends the function, otherwise the code after the loop runs with ` + "`i`" + ` -/
+def Flow.cont (f : Flow) (k : Int → Bool) : Bool :=
+  match f with
+  | .ret b => b
+  | .brk i => k i
+  | .next i => k i
+
+/-- ` + "`for ; i < len; i++ { body }`" + ` (the fuel is an upper bound on the number of iterations) -/
+def runLoop (len : Int) (body : Int → Flow) : Nat → Int → Flow
+  | 0, i => .brk i
+  | fuel + 1, i =>
+    if i < len then
+      match body i with
+      | .next i' => runLoop len body fuel (i' + 1)
+      | f => f
+    else .brk i
+
+`
+
+func c16ScanFunc(c *Ctx, rel, name, lean string) string {
+	fd := c.Func(rel, name)
+	if fd == nil || fd.Body == nil || fd.Type.Params == nil || len(fd.Type.Params.List) != 1 || len(fd.Type.Params.List[0].Names) != 1 {
+		return untranslatable(lean)
+	}
+	t := &c16tr{c: c, param: fd.Type.Params.List[0].Names[0].Name, ok: true}
+	body := t.top(fd.Body.List)
+	if !t.ok {
+		return fmt.Sprintf("-- %s: %s\n", name, strings.ReplaceAll(t.why, "\n", " ")) + untranslatable(lean)
+	}
+	return fmt.Sprintf("/-- `%s` of %s, statement by statement -/\ndef %s (%s : List UInt8) : Bool :=\n  let len : Int := %s.length\n  %s\n\n",
+		name, rel, lean, t.param, t.param, body)
+}
+
+// c16KeySwitch: the cases of `switch key` in GetKey whose body is `return s.json(<bool>, <bool>)`.
+func c16KeySwitch(c *Ctx, fd *ast.FuncDecl) (string, bool) {
+	if fd == nil {
+		return "", false
+	}
+	var rows []string
+	found := false
+	ast.Inspect(fd, func(n ast.Node) bool {
+		sw, ok := n.(*ast.SwitchStmt)
+		if !ok || found {
+			return true
+		}
+		if id, ok := sw.Tag.(*ast.Ident); !ok || id.Name != "key" {
+			return true
+		}
+		found = true
+		for _, st := range sw.Body.List {
+			cc, ok := st.(*ast.CaseClause)
+			if !ok || len(cc.Body) != 1 {
+				continue
+			}
+			ret, ok := cc.Body[0].(*ast.ReturnStmt)
+			if !ok || len(ret.Results) != 1 {
+				continue
+			}
+			call, ok := ret.Results[0].(*ast.CallExpr)
+			if !ok || len(call.Args) != 2 {
+				continue
+			}
+			sel, ok := call.Fun.(*ast.SelectorExpr)
+			if !ok || sel.Sel.Name != "json" {
+				continue
+			}
+			a, ok1 := call.Args[0].(*ast.Ident)
+			b, ok2 := call.Args[1].(*ast.Ident)
+			if !ok1 || !ok2 {
+				continue
+			}
+			var keys []string
+			for _, k := range cc.List {
+				s, ok := StringLit(k)
+				if !ok {
+					return false
+				}
+				keys = append(keys, s)
+			}
+			rows = append(rows, fmt.Sprintf("(%s, %s, %s)", c16BytesList(keys), a.Name, b.Name))
+		}
+		return false
+	})
+	if !found || len(rows) == 0 {
+		return "", false
+	}
+	return "[" + strings.Join(rows, ",\n   ") + "]", true
+}
+
+// c16Outline: the control skeleton of a function: one entry per statement, nested blocks bracketed, every
+// entry the source text of the statement header with white space removed.
+func c16Outline(c *Ctx, fd *ast.FuncDecl) ([]string, bool) {
+	if fd == nil || fd.Body == nil {
+		return nil, false
+	}
+	var out []string
+	squash := func(n ast.Node) string { return strings.Join(strings.Fields(c.Print(n)), "") }
+	var walk func(list []ast.Stmt)
+	walk = func(list []ast.Stmt) {
+		for _, st := range list {
+			switch v := st.(type) {
+			case *ast.IfStmt:
+				h := "if "
+				if v.Init != nil {
+					h += squash(v.Init) + ";"
+				}
+				out = append(out, h+squash(v.Cond)+"{")
+				walk(v.Body.List)
+				out = append(out, "}")
+				if v.Else != nil {
+					out = append(out, "else{")
+					if b, ok := v.Else.(*ast.BlockStmt); ok {
+						walk(b.List)
+					} else {
+						walk([]ast.Stmt{v.Else})
+					}
+					out = append(out, "}")
+				}
+			case *ast.ForStmt:
+				h := "for "
+				if v.Init != nil {
+					h += squash(v.Init)
+				}
+				h += ";"
+				if v.Cond != nil {
+					h += squash(v.Cond)
+				}
+				h += ";"
+				if v.Post != nil {
+					h += squash(v.Post)
+				}
+				out = append(out, h+"{")
+				walk(v.Body.List)
+				out = append(out, "}")
+			case *ast.RangeStmt:
+				h := "range "
+				if v.Key != nil {
+					h += squash(v.Key)
+				}
+				if v.Value != nil {
+					h += "," + squash(v.Value)
+				}
+				out = append(out, h+":="+squash(v.X)+"{")
+				walk(v.Body.List)
+				out = append(out, "}")
+			case *ast.BlockStmt:
+				walk(v.List)
+			default:
+				out = append(out, squash(st))
+			}
+		}
+	}
+	walk(fd.Body.List)
+	return out, true
+}
+
 func init() {
 	RegisterGen("C16", func(c *Ctx) string {
 		const mj = "pkg/minijson/minijson.go"
@@ -157,6 +486,34 @@ func init() {
 			fmt.Fprintf(&sb, "/-- literals emitted by `WriteInferred` through `WriteLiteral` -/\ndef inferredLiterals : List (List UInt8) := %s\n\n", c16BytesList(l))
 		} else {
 			sb.WriteString(untranslatable("inferredLiterals"))
+		}
+
+
+		sb.WriteString(c16Prelude)
+		sb.WriteString(c16ScanFunc(c, mj, "isNumeric", "isNumeric"))
+
+		const ctxFile = "pkg/extractor/sliceSpaceExpressionContext.go"
+		if rows, ok := c16KeySwitch(c, c.Func(ctxFile, "SliceSpaceExpressionContext.GetKey")); ok {
+			fmt.Fprintf(&sb, "/-- the cases of `switch key` in `GetKey` that return `s.json(named, numbered)`: (case literals, named, numbered) -/\ndef jsonKeyCases : List (List (List UInt8) × Bool × Bool) :=\n  %s\n\n", rows)
+		} else {
+			sb.WriteString(untranslatable("jsonKeyCases"))
+		}
+		for _, it := range []struct{ lean, file, fn string }{
+			{"jsonOutline", ctxFile, "SliceSpaceExpressionContext.json"},
+			{"specialOutline", "cmd/expressions.go", "buildSpecialKeyJson"},
+			{"parseKeyValueOutline", "cmd/expressions.go", "parseKeyValue"},
+			{"parseKeyValuesIntoMapOutline", "cmd/expressions.go", "parseKeyValuesIntoMap"},
+			{"marshalOutline", "pkg/minijson/util.go", "MarshalStringMapInferred"},
+			{"writeInferredOutline", mj, "JsonObjectBuilder.WriteInferred"},
+			{"writeIntOutline", mj, "JsonObjectBuilder.WriteInt"},
+			{"escapeOutline", mj, "escape"},
+			{"regexTableOutline", "pkg/matchers/fastregex/re2.go", "createGroupNameTable"},
+		} {
+			if l, ok := c16Outline(c, c.Func(it.file, it.fn)); ok {
+				fmt.Fprintf(&sb, "/-- control skeleton of `%s` (%s): statement texts without white space, blocks bracketed -/\ndef %s : List String :=\n  %s\n\n", it.fn, it.file, it.lean, leanStrList(l))
+			} else {
+				sb.WriteString(untranslatable(it.lean))
+			}
 		}
 
 		for _, fn := range []string{"escape", "isNumeric", "JsonObjectBuilder.WriteInferred", "JsonObjectBuilder.writeKey",
